@@ -607,6 +607,105 @@ def _all_unprevented(cs):
     return bool(cs) and all(any(_lit_truth(lit_expr(t, p)[0], lit_expr(t, p)[1], _not_prevented, None) for (t, p) in conj if lit_expr(t, p)[0] is not None) for conj in cs)
 
 
+_UNKNOWN, _RAISES = object(), object()
+
+
+class _Rec:
+    """a model object: the attributes the rule knows about; anything else about it is unknown"""
+    def __init__(self, **kw):
+        self.attrs = kw
+
+
+def _frame_models():
+    return {"none": None,
+            "free": _Rec(recursive_context=_Rec(prevent_further_calls=False)),
+            "prevented": _Rec(recursive_context=_Rec(prevent_further_calls=True))}
+
+
+def _eval_on_frame(e, frame):
+    """Three-valued reading of a guard expression for a given calling frame (None / a frame that allows further
+    calls / one that prevents them): a value, _UNKNOWN (the expression is about something else), or _RAISES (it
+    cannot be evaluated for this frame: attribute of None).  The sub-expression that denotes the calling frame is
+    recognised by its expansion (`FRAME`)."""
+    if A.norm(e) == FRAME:
+        return frame
+    if isinstance(e, ast.Constant):
+        return e.value
+    if isinstance(e, ast.Attribute):
+        b = _eval_on_frame(e.value, frame)
+        if b is _UNKNOWN or b is _RAISES:
+            return b
+        if b is None:
+            return _RAISES
+        if isinstance(b, _Rec):
+            return b.attrs.get(e.attr, _UNKNOWN)
+        return _UNKNOWN
+    if isinstance(e, ast.UnaryOp) and isinstance(e.op, ast.Not):
+        v = _eval_on_frame(e.operand, frame)
+        return v if v is _UNKNOWN or v is _RAISES else (not v)
+    if isinstance(e, ast.BoolOp):
+        is_and = isinstance(e.op, ast.And)
+        unknown = False
+        last = is_and
+        for x in e.values:
+            v = _eval_on_frame(x, frame)
+            if v is _RAISES:
+                return _UNKNOWN if unknown else _RAISES
+            if v is _UNKNOWN:
+                unknown = True
+                continue
+            last = v
+            if bool(v) != is_and:
+                return v        # decides the whole expression (an unknown operand before it could only have done the same)
+        return _UNKNOWN if unknown else last
+    if isinstance(e, ast.IfExp):
+        t = _eval_on_frame(e.test, frame)
+        if t is _UNKNOWN or t is _RAISES:
+            return t
+        return _eval_on_frame(e.body if t else e.orelse, frame)
+    if isinstance(e, ast.Call) and isinstance(e.func, ast.Name) and e.func.id == "bool" and len(e.args) == 1 and not e.keywords:
+        v = _eval_on_frame(e.args[0], frame)
+        return v if v is _UNKNOWN or v is _RAISES else bool(v)
+    if isinstance(e, ast.Compare) and len(e.ops) == 1 and isinstance(e.ops[0], (ast.Is, ast.IsNot, ast.Eq, ast.NotEq)):
+        l, r = _eval_on_frame(e.left, frame), _eval_on_frame(e.comparators[0], frame)
+        if l is _RAISES or r is _RAISES:
+            return _RAISES
+        if l is _UNKNOWN or r is _UNKNOWN:
+            return _UNKNOWN
+        same = (l is r) if isinstance(e.ops[0], (ast.Is, ast.IsNot)) or isinstance(l, _Rec) or isinstance(r, _Rec) else (l == r)
+        return same if isinstance(e.ops[0], (ast.Is, ast.Eq)) else not same
+    return _UNKNOWN
+
+
+def parse_literal(t):
+    """The expression a path-condition literal stands for.  FA renders a comparison as '<left> <op> <right>' from the
+    expanded operands without parentheses, so a left operand that is a conditional expression (a local defined by
+    `a if c else b` and then compared) comes back from the parser as `a if c else (b <op> right)`; the comparison
+    is put back around the conditional expression."""
+    try:
+        e = ast.parse(t, mode="eval").body
+    except SyntaxError:
+        return None
+    if isinstance(e, ast.IfExp) and isinstance(e.orelse, ast.Compare) and len(e.orelse.ops) == 1 and not isinstance(e.orelse.left, ast.IfExp):
+        c = e.orelse
+        return ast.fix_missing_locations(ast.Compare(left=ast.IfExp(test=e.test, body=e.body, orelse=c.left), ops=c.ops, comparators=c.comparators))
+    return e
+
+
+def _feasible_for(conj, frame):
+    """can a path with these branch literals be taken when the calling frame is `frame`?"""
+    for (t, p) in conj:
+        e = parse_literal(t)
+        if e is None:
+            continue
+        v = _eval_on_frame(e, frame)
+        if v is _RAISES:
+            return False
+        if v is not _UNKNOWN and bool(v) != p:
+            return False
+    return True
+
+
 def _default_or(fa, e, at, param, default):
     """is `e` "the parameter if it was given, else the default" (`p or d`, `p if p else d`, `d if p is None else p`, ...)"""
     x = strip_cast(fa.expand(e, at))
@@ -1018,6 +1117,20 @@ def check(ck):
             cs = conds(rb, rb.nodes(r)[0])
             if cs and all(any(_lit_truth(lit_expr(t, p)[0], lit_expr(t, p)[1], _prevented, None) for (t, p) in conj if lit_expr(t, p)[0] is not None) for conj in cs):
                 ok4 = True
+    if not ok4 and all_dn:
+        # the same clause with the guards read for each kind of calling frame: with a frame that prevents further
+        # calls no path reaches the dispatch or the normal exit, and a RuntimeError is raised for such a frame only
+        M = _frame_models()
+        reach_ = [c for dn in all_dn for c in conds(rb, dn)]
+        ex = rb.conditions(rb.cfg.exit)
+        reach_ += [canon_conj(c) for c in (ex or [])]
+        ok4 = not any(_feasible_for(c, M["prevented"]) for c in reach_)
+        if ok4:
+            ok4 = False
+            for r in [r for r in rb.stmts(ast.Raise) if r.exc is not None and rb.nodes(r) and A.norm(r.exc.func if isinstance(r.exc, ast.Call) else r.exc) == "RuntimeError"]:
+                cs = conds(rb, rb.nodes(r)[0])
+                if cs and any(_feasible_for(c, M["prevented"]) for c in cs) and not any(_feasible_for(c, M["none"]) or _feasible_for(c, M["free"]) for c in cs):
+                    ok4 = True
     ck.ob(R4, rb.key(None, "prevent-dominates-dispatch"), ok4, "a prevented call raises before anything is dispatched" if ok4 else
           "the prevent_further_calls check does not dominate the dispatch to the runner", rb.where())
 
